@@ -16,7 +16,7 @@ macro "eok2" : tactic => `(tactic|
 
 /-! ### lexIdent -/
 
-theorem lexIdentRest_sat {n : Int} {l0 l : Lexer} {ty : ItemType} (hn : l.len = n ∧ (l.mp : Int) ≤ n ∧ 0 ≤ l.tagStart ∧ l.tagStart ≤ n ∧ (l.bad = 0 ∧ l.cnt ≤ 2 * l.start) ∧ l.tagBad = 0) (h0 : 0 ≤ l.start)
+theorem lexIdentRest_sat {n : Int} {l0 l : Lexer} {ty : ItemType} (hn : l.len = n ∧ (l.mp : Int) ≤ n ∧ 0 ≤ l.tagStart ∧ l.tagStart ≤ n ∧ (l.bad = 0 ∧ l.cnt ≤ 2 * l.start ∧ l.tot ≤ l.start) ∧ l.tagBad = 0) (h0 : 0 ≤ l.start)
     (h1 : l.start ≤ l0.pos) (h2 : l.pos ≤ n) (hle : l0.pos ≤ l.pos) (hadv : l0.pos < l.pos)
     (hty : emitOK ty (l.pos - l.start)) (hi0 : l.input = l0.input) :
     Sat (lexIdentRest l ty) (Post n .ident l0) := by
@@ -101,16 +101,16 @@ theorem lexIdent_ok {n : Int} {l : Lexer} (hg : Good n l) (hx : Extra .ident l) 
 /-! ### `∃`-forms of the primitive rules, for the loops defined by `match h : … with` -/
 
 theorem next_ex {l : Lexer} (h0 : 0 ≤ l.pos) :
-    ∃ r l', l.next = some (r, l') ∧ (l'.len = l.len ∧ l'.mp = l.mp ∧ l'.tagStart = l.tagStart ∧ (l'.bad = l.bad ∧ l'.cnt = l.cnt) ∧ l'.tagBad = l.tagBad ∧ l'.input = l.input) ∧ l'.start = l.start ∧ NextFacts l r l' := by
-  obtain ⟨⟨r, l'⟩, h, f⟩ := next_sat (Q := fun x => (x.2.len = l.len ∧ x.2.mp = l.mp ∧ x.2.tagStart = l.tagStart ∧ (x.2.bad = l.bad ∧ x.2.cnt = l.cnt) ∧ x.2.tagBad = l.tagBad ∧ x.2.input = l.input) ∧ x.2.start = l.start ∧ NextFacts l x.1 x.2)
+    ∃ r l', l.next = some (r, l') ∧ (l'.len = l.len ∧ l'.mp = l.mp ∧ l'.tagStart = l.tagStart ∧ (l'.bad = l.bad ∧ l'.cnt = l.cnt ∧ l'.tot = l.tot) ∧ l'.tagBad = l.tagBad ∧ l'.input = l.input) ∧ l'.start = l.start ∧ NextFacts l r l' := by
+  obtain ⟨⟨r, l'⟩, h, f⟩ := next_sat (Q := fun x => (x.2.len = l.len ∧ x.2.mp = l.mp ∧ x.2.tagStart = l.tagStart ∧ (x.2.bad = l.bad ∧ x.2.cnt = l.cnt ∧ x.2.tot = l.tot) ∧ x.2.tagBad = l.tagBad ∧ x.2.input = l.input) ∧ x.2.start = l.start ∧ NextFacts l x.1 x.2)
     h0 (fun _ _ a b c => ⟨a, b, c⟩)
   exact ⟨r, l', h, f⟩
 
 theorem peek_ex {l : Lexer} (h0 : 0 ≤ l.pos) :
-    ∃ r l', l.peek = some (r, l') ∧ (l'.len = l.len ∧ l'.mp = l.mp ∧ l'.tagStart = l.tagStart ∧ (l'.bad = l.bad ∧ l'.cnt = l.cnt) ∧ l'.tagBad = l.tagBad ∧ l'.input = l.input) ∧ l'.start = l.start ∧ l'.pos = l.pos ∧
+    ∃ r l', l.peek = some (r, l') ∧ (l'.len = l.len ∧ l'.mp = l.mp ∧ l'.tagStart = l.tagStart ∧ (l'.bad = l.bad ∧ l'.cnt = l.cnt ∧ l'.tot = l.tot) ∧ l'.tagBad = l.tagBad ∧ l'.input = l.input) ∧ l'.start = l.start ∧ l'.pos = l.pos ∧
       ((l.len ≤ l.pos ∧ r = -1 ∧ l'.width = 0) ∨
        (l.pos < l.len ∧ 0 ≤ r ∧ 1 ≤ l'.width ∧ l.pos + l'.width ≤ l.len ∧ (128 ≤ r ∨ l'.width = 1))) := by
-  obtain ⟨⟨r, l'⟩, h, f⟩ := peek_sat (l := l) (Q := fun x => (x.2.len = l.len ∧ x.2.mp = l.mp ∧ x.2.tagStart = l.tagStart ∧ (x.2.bad = l.bad ∧ x.2.cnt = l.cnt) ∧ x.2.tagBad = l.tagBad ∧ x.2.input = l.input) ∧ x.2.start = l.start ∧ x.2.pos = l.pos ∧
+  obtain ⟨⟨r, l'⟩, h, f⟩ := peek_sat (l := l) (Q := fun x => (x.2.len = l.len ∧ x.2.mp = l.mp ∧ x.2.tagStart = l.tagStart ∧ (x.2.bad = l.bad ∧ x.2.cnt = l.cnt ∧ x.2.tot = l.tot) ∧ x.2.tagBad = l.tagBad ∧ x.2.input = l.input) ∧ x.2.start = l.start ∧ x.2.pos = l.pos ∧
       ((l.len ≤ l.pos ∧ x.1 = -1 ∧ x.2.width = 0) ∨
        (l.pos < l.len ∧ 0 ≤ x.1 ∧ 1 ≤ x.2.width ∧ l.pos + x.2.width ≤ l.len ∧ (128 ≤ x.1 ∨ x.2.width = 1))))
     h0 (fun _ _ a b c d => ⟨a, b, c, d⟩)
@@ -118,7 +118,7 @@ theorem peek_ex {l : Lexer} (h0 : 0 ≤ l.pos) :
 
 /-- facts about a `next` whose result is already known (after `split` on `match h : l.next with`) -/
 theorem next_facts {l l' : Lexer} {r : Int} (h : l.next = some (r, l')) (h0 : 0 ≤ l.pos) :
-    (l'.len = l.len ∧ l'.mp = l.mp ∧ l'.tagStart = l.tagStart ∧ (l'.bad = l.bad ∧ l'.cnt = l.cnt) ∧ l'.tagBad = l.tagBad ∧ l'.input = l.input) ∧ l'.start = l.start ∧ NextFacts l r l' := by
+    (l'.len = l.len ∧ l'.mp = l.mp ∧ l'.tagStart = l.tagStart ∧ (l'.bad = l.bad ∧ l'.cnt = l.cnt ∧ l'.tot = l.tot) ∧ l'.tagBad = l.tagBad ∧ l'.input = l.input) ∧ l'.start = l.start ∧ NextFacts l r l' := by
   obtain ⟨r2, l2, h2, f⟩ := next_ex h0
   rw [h] at h2
   simp only [Option.some.injEq, Prod.mk.injEq] at h2
@@ -127,12 +127,12 @@ theorem next_facts {l l' : Lexer} {r : Int} (h : l.next = some (r, l')) (h0 : 0 
 
 theorem emit_ex {l : Lexer} (t : ItemType) (h0 : 0 ≤ l.start) (h1 : l.start ≤ l.pos) (h2 : l.pos ≤ l.len)
     (hok : emitOK t (l.pos - l.start) := by exact emitOK_safe rfl rfl) :
-    ∃ l', l.emit t = some l' ∧ (l'.len = l.len ∧ l.mp ≤ l'.mp ∧ ((l'.mp : Int) = l.mp ∨ (l'.mp : Int) = l.pos) ∧ l'.tagStart = l.tagStart ∧ (l'.bad = l.bad ∧ l'.cnt = l.cnt + 1) ∧ l'.tagBad = l.tagBad ∧ l'.input = l.input) ∧
+    ∃ l', l.emit t = some l' ∧ (l'.len = l.len ∧ l.mp ≤ l'.mp ∧ ((l'.mp : Int) = l.mp ∨ (l'.mp : Int) = l.pos) ∧ l'.tagStart = l.tagStart ∧ (l'.bad = l.bad ∧ l'.cnt = l.cnt + 1 ∧ l'.tot = l.tot + (l.pos - l.start)) ∧ l'.tagBad = l.tagBad ∧ l'.input = l.input) ∧
       l'.pos = l.pos ∧ l'.start = l.pos ∧ l'.width = l.width :=
   emit_sat h0 h1 h2 hok (fun _ a b c d => ⟨a, b, c, d⟩)
 
 theorem maybeEmitText_ex {l : Lexer} {k : Int} (hs0 : 0 ≤ l.start) (hk : 0 ≤ k) (hp : l.pos - k ≤ l.len) :
-    ∃ l', maybeEmitText l k = some l' ∧ (l'.len = l.len ∧ l.mp ≤ l'.mp ∧ ((l'.mp : Int) = l.mp ∨ (l'.mp : Int) = l.pos - k) ∧ l'.tagStart = l.tagStart ∧ (l'.bad = l.bad ∧ l'.cnt + l.start ≤ l.cnt + l'.start) ∧ l'.tagBad = l.tagBad ∧ l'.input = l.input) ∧
+    ∃ l', maybeEmitText l k = some l' ∧ (l'.len = l.len ∧ l.mp ≤ l'.mp ∧ ((l'.mp : Int) = l.mp ∨ (l'.mp : Int) = l.pos - k) ∧ l'.tagStart = l.tagStart ∧ (l'.bad = l.bad ∧ l'.cnt + l.start ≤ l.cnt + l'.start ∧ l'.tot + l.start ≤ l.tot + l'.start) ∧ l'.tagBad = l.tagBad ∧ l'.input = l.input) ∧
       l'.pos = l.pos ∧ l'.width = l.width ∧
       ((l'.start = l.start ∧ l.pos - k ≤ l.start) ∨ (l.start < l.pos - k ∧ l'.start = l.pos - k)) :=
   maybeEmitText_sat hs0 hk hp (fun _ a b c d => ⟨a, b, c, d⟩)
@@ -140,7 +140,7 @@ theorem maybeEmitText_ex {l : Lexer} {k : Int} (hs0 : 0 ≤ l.start) (hk : 0 ≤
 /-! ### stringLexer -/
 
 theorem lexString_sat {n : Int} {l0 : Lexer} (q : Int) : ∀ (k : Nat) (l : Lexer), l.rem = k →
-    (l.len = n ∧ (l.mp : Int) ≤ n ∧ 0 ≤ l.tagStart ∧ l.tagStart ≤ n ∧ (l.bad = 0 ∧ l.cnt ≤ 2 * l.start) ∧ l.tagBad = 0) → 0 ≤ l.start → l.start ≤ l.pos → l.pos ≤ n → l0.pos ≤ l.pos →
+    (l.len = n ∧ (l.mp : Int) ≤ n ∧ 0 ≤ l.tagStart ∧ l.tagStart ≤ n ∧ (l.bad = 0 ∧ l.cnt ≤ 2 * l.start ∧ l.tot ≤ l.start) ∧ l.tagBad = 0) → 0 ≤ l.start → l.start ≤ l.pos → l.pos ≤ n → l0.pos ≤ l.pos →
     ((byteAt l.input l.start.toNat : Int) = q ∧ (q = 34 ∨ q = 39)) → l.input = l0.input →
     Sat (lexString q l) (Post n (.str q) l0) := by
   intro k
@@ -187,10 +187,10 @@ theorem lexString_ok {n : Int} {l : Lexer} {q : Int} (hg : Good n l) (hx : Extra
 
 /-- what `scanNumber` and its parts return, relative to the lexer `l0` at its start -/
 def NumPost (n : Int) (l0 : Lexer) (adv : Bool) (res : ItemType × Bool × Lexer) : Prop :=
-  (res.2.2.len = n ∧ (res.2.2.mp : Int) ≤ n ∧ 0 ≤ res.2.2.tagStart ∧ res.2.2.tagStart ≤ n ∧ (res.2.2.bad = 0 ∧ res.2.2.cnt ≤ 2 * res.2.2.start) ∧ res.2.2.tagBad = 0) ∧ (res.2.2.start = l0.start ∧ res.2.2.input = l0.input) ∧ l0.pos ≤ res.2.2.pos ∧ res.2.2.pos ≤ n ∧
+  (res.2.2.len = n ∧ (res.2.2.mp : Int) ≤ n ∧ 0 ≤ res.2.2.tagStart ∧ res.2.2.tagStart ≤ n ∧ (res.2.2.bad = 0 ∧ res.2.2.cnt ≤ 2 * res.2.2.start ∧ res.2.2.tot ≤ res.2.2.start) ∧ res.2.2.tagBad = 0) ∧ (res.2.2.start = l0.start ∧ res.2.2.input = l0.input) ∧ l0.pos ≤ res.2.2.pos ∧ res.2.2.pos ≤ n ∧
     (adv = true ∨ res.2.1 = false ∨ l0.pos < res.2.2.pos) ∧ (res.1 = .tInteger ∨ res.1 = .tFloat)
 
-theorem scanNumberEnd_sat {n : Int} {l0 l : Lexer} {typ : ItemType} {adv : Bool} (htyp : typ = .tInteger ∨ typ = .tFloat) (hn : l.len = n ∧ (l.mp : Int) ≤ n ∧ 0 ≤ l.tagStart ∧ l.tagStart ≤ n ∧ (l.bad = 0 ∧ l.cnt ≤ 2 * l.start) ∧ l.tagBad = 0)
+theorem scanNumberEnd_sat {n : Int} {l0 l : Lexer} {typ : ItemType} {adv : Bool} (htyp : typ = .tInteger ∨ typ = .tFloat) (hn : l.len = n ∧ (l.mp : Int) ≤ n ∧ 0 ≤ l.tagStart ∧ l.tagStart ≤ n ∧ (l.bad = 0 ∧ l.cnt ≤ 2 * l.start ∧ l.tot ≤ l.start) ∧ l.tagBad = 0)
     (hs : l.start = l0.start ∧ l.input = l0.input) (h0 : 0 ≤ l0.pos) (hle : l0.pos ≤ l.pos) (h2 : l.pos ≤ n)
     (hadv : adv = true ∨ l0.pos < l.pos) :
     Sat (scanNumberEnd l typ) (NumPost n l0 adv) := by
@@ -213,7 +213,7 @@ theorem scanNumberEnd_sat {n : Int} {l0 l : Lexer} {typ : ItemType} {adv : Bool}
     · exact Or.inl h
     · exact Or.inr (Or.inr (by lx))
 
-theorem scanNumberExp_sat {n : Int} {l0 l : Lexer} {typ : ItemType} {adv : Bool} (htyp : typ = .tInteger ∨ typ = .tFloat) (hn : l.len = n ∧ (l.mp : Int) ≤ n ∧ 0 ≤ l.tagStart ∧ l.tagStart ≤ n ∧ (l.bad = 0 ∧ l.cnt ≤ 2 * l.start) ∧ l.tagBad = 0)
+theorem scanNumberExp_sat {n : Int} {l0 l : Lexer} {typ : ItemType} {adv : Bool} (htyp : typ = .tInteger ∨ typ = .tFloat) (hn : l.len = n ∧ (l.mp : Int) ≤ n ∧ 0 ≤ l.tagStart ∧ l.tagStart ≤ n ∧ (l.bad = 0 ∧ l.cnt ≤ 2 * l.start ∧ l.tot ≤ l.start) ∧ l.tagBad = 0)
     (hs : l.start = l0.start ∧ l.input = l0.input) (h0 : 0 ≤ l0.pos) (hle : l0.pos ≤ l.pos) (h2 : l.pos ≤ n)
     (hadv : adv = true ∨ l0.pos < l.pos) :
     Sat (scanNumberExp l typ) (NumPost n l0 adv) := by
@@ -245,7 +245,7 @@ theorem scanNumberExp_sat {n : Int} {l0 l : Lexer} {typ : ItemType} {adv : Bool}
     · exact Or.inl h
     · exact Or.inr (by lx)
 
-theorem NumPost.fail {n : Int} {l0 l : Lexer} {typ : ItemType} (htyp : typ = .tInteger ∨ typ = .tFloat) (hn : l.len = n ∧ (l.mp : Int) ≤ n ∧ 0 ≤ l.tagStart ∧ l.tagStart ≤ n ∧ (l.bad = 0 ∧ l.cnt ≤ 2 * l.start) ∧ l.tagBad = 0)
+theorem NumPost.fail {n : Int} {l0 l : Lexer} {typ : ItemType} (htyp : typ = .tInteger ∨ typ = .tFloat) (hn : l.len = n ∧ (l.mp : Int) ≤ n ∧ 0 ≤ l.tagStart ∧ l.tagStart ≤ n ∧ (l.bad = 0 ∧ l.cnt ≤ 2 * l.start ∧ l.tot ≤ l.start) ∧ l.tagBad = 0)
     (hs : l.start = l0.start ∧ l.input = l0.input) (hle : l0.pos ≤ l.pos) (h2 : l.pos ≤ n) :
     Sat (pure (typ, false, l) : Option (ItemType × Bool × Lexer)) (NumPost n l0 false) := by
   apply Sat.ret
@@ -280,8 +280,8 @@ theorem scanNumber_sat {n : Int} {l : Lexer} (hg : Good n l) :
     · exact NumPost.fail (by first | exact Or.inl rfl | exact Or.inr rfl | assumption) (by lx) ⟨by lx, by inq⟩ (by lx) (by lx)
     · -- `l.pos += 2`
       generalize hl2d : ({ l1 with pos := l1.pos + 2 } : Lexer) = l2
-      have hl2 : l2.len = l1.len ∧ l2.mp = l1.mp ∧ l2.tagStart = l1.tagStart ∧ (l2.bad = l1.bad ∧ l2.cnt = l1.cnt) ∧ l2.tagBad = l1.tagBad ∧ l2.input = l1.input := by
-        subst hl2d; exact ⟨rfl, rfl, rfl, ⟨rfl, rfl⟩, rfl, rfl⟩
+      have hl2 : l2.len = l1.len ∧ l2.mp = l1.mp ∧ l2.tagStart = l1.tagStart ∧ (l2.bad = l1.bad ∧ l2.cnt = l1.cnt ∧ l2.tot = l1.tot) ∧ l2.tagBad = l1.tagBad ∧ l2.input = l1.input := by
+        subst hl2d; exact ⟨rfl, rfl, rfl, ⟨rfl, rfl, rfl⟩, rfl, rfl⟩
       have hs2 : l2.start = l1.start := by subst hl2d; rfl
       have hp2 : l2.pos = l1.pos + 2 := by subst hl2d; rfl
       apply Sat.bind
@@ -374,8 +374,8 @@ theorem lexNumber_ok {n : Int} {l : Lexer} (hg : Good n l) :
 /-! ### lexHeaderParam -/
 
 theorem headerTypeLoop_sat {n : Int} {Q : Int × Lexer × Int → Prop} (l0 : Lexer) : ∀ (k : Nat) (l : Lexer) (lns : Int),
-    l.rem = k → (l.len = n ∧ (l.mp : Int) ≤ n ∧ 0 ≤ l.tagStart ∧ l.tagStart ≤ n ∧ (l.bad = 0 ∧ l.cnt ≤ 2 * l.start) ∧ l.tagBad = 0) → 0 ≤ l.pos → l.pos ≤ n → l0.pos ≤ lns → lns ≤ l.pos →
-    (∀ ch l' lns', (l'.len = n ∧ (l'.mp : Int) ≤ n ∧ 0 ≤ l'.tagStart ∧ l'.tagStart ≤ n ∧ (l'.bad = 0 ∧ l'.cnt ≤ 2 * l'.start) ∧ l'.tagBad = 0) → ((l'.start = l.start ∧ l'.cnt = l.cnt) ∧ l'.input = l.input) → l0.pos ≤ lns' → lns' ≤ l'.pos → l'.pos ≤ n → Q (ch, l', lns')) →
+    l.rem = k → (l.len = n ∧ (l.mp : Int) ≤ n ∧ 0 ≤ l.tagStart ∧ l.tagStart ≤ n ∧ (l.bad = 0 ∧ l.cnt ≤ 2 * l.start ∧ l.tot ≤ l.start) ∧ l.tagBad = 0) → 0 ≤ l.pos → l.pos ≤ n → l0.pos ≤ lns → lns ≤ l.pos →
+    (∀ ch l' lns', (l'.len = n ∧ (l'.mp : Int) ≤ n ∧ 0 ≤ l'.tagStart ∧ l'.tagStart ≤ n ∧ (l'.bad = 0 ∧ l'.cnt ≤ 2 * l'.start ∧ l'.tot ≤ l'.start) ∧ l'.tagBad = 0) → ((l'.start = l.start ∧ l'.cnt = l.cnt ∧ l'.tot = l.tot) ∧ l'.input = l.input) → l0.pos ≤ lns' → lns' ≤ l'.pos → l'.pos ≤ n → Q (ch, l', lns')) →
     Sat (headerTypeLoop l lns) Q := by
   intro k
   induction k using Nat.strongRecOn with
@@ -396,7 +396,7 @@ theorem headerTypeLoop_sat {n : Int} {Q : Int × Lexer × Int → Prop} (l0 : Le
       · apply ih l1.rem (by simp only [Lexer.rem] at hk ⊢; lx) l1 _ rfl (by lx) (by lx) (by lx)
           (by split <;> lx) (by split <;> lx)
         intro ch' l' lns' a b c d e
-        exact hq ch' l' lns' a ⟨⟨b.1.1.trans hs1, b.1.2.trans hl1.2.2.2.1.2⟩, b.2.trans hl1.2.2.2.2.2⟩ c d e
+        exact hq ch' l' lns' a ⟨⟨b.1.1.trans hs1, b.1.2.1.trans hl1.2.2.2.1.2.1, b.1.2.2.trans hl1.2.2.2.1.2.2⟩, b.2.trans hl1.2.2.2.2.2⟩ c d e
 
 theorem lexHeaderParam_ok {n : Int} {l : Lexer} (hg : Good n l) :
     Sat (lexHeaderParam l) (Post n .headerParam l) := by
@@ -414,7 +414,7 @@ theorem lexHeaderParam_ok {n : Int} {l : Lexer} (hg : Good n l) :
     nx q l1 hl1 hs1 hf1
     apply Sat.bind
     have hem : Sat (if q = 63 then l1.emit .tHeaderOptionalParam else l1.backup.emit .tHeaderParam)
-        (fun l2 => (l2.len = n ∧ (l2.mp : Int) ≤ n ∧ 0 ≤ l2.tagStart ∧ l2.tagStart ≤ n ∧ (l2.bad = 0 ∧ l2.cnt ≤ 2 * l2.start) ∧ l2.tagBad = 0) ∧ ((l2.start = l2.pos ∧ l2.cnt = l.cnt + 1) ∧ l2.input = l.input) ∧ l.pos + 5 ≤ l2.pos ∧ l2.pos ≤ n) := by
+        (fun l2 => (l2.len = n ∧ (l2.mp : Int) ≤ n ∧ 0 ≤ l2.tagStart ∧ l2.tagStart ≤ n ∧ (l2.bad = 0 ∧ l2.cnt ≤ 2 * l2.start ∧ l2.tot ≤ l2.start) ∧ l2.tagBad = 0) ∧ ((l2.start = l2.pos ∧ l2.cnt = l.cnt + 1 ∧ l2.tot ≤ l.tot + (l2.pos - l.start)) ∧ l2.input = l.input) ∧ l.pos + 5 ≤ l2.pos ∧ l2.pos ≤ n) := by
       split
       · em l2 hl2 hp2 hs2 hw2
         exact ⟨by lx, ⟨by lx, by inq⟩, by lx, by lx⟩
@@ -494,6 +494,7 @@ theorem lexCss_ok {n : Int} {l : Lexer} (hg : Good n l) :
 
 /-! ### lexLiteral -/
 
+set_option maxHeartbeats 1600000 in
 theorem lexLiteral_ok {n : Int} {l : Lexer} (hg : Good n l) :
     Sat (lexLiteral l) (Post n .literal l) := by
   obtain ⟨hn, hs0, hsp, hpn⟩ := hg
@@ -533,7 +534,7 @@ theorem lexLiteral_ok {n : Int} {l : Lexer} (hg : Good n l) :
         have hd0 : 0 ≤ (i : Int) := Int.natCast_nonneg _
         apply Sat.bind
         have hem : Sat (if i > 0 then (l3.addPos ↑i).emit .tText else pure (l3.addPos ↑i))
-            (fun l4 => (l4.len = n ∧ (l4.mp : Int) ≤ n ∧ 0 ≤ l4.tagStart ∧ l4.tagStart ≤ n ∧ (l4.bad = 0 ∧ l4.cnt ≤ 2 * l4.start) ∧ l4.tagBad = 0) ∧ (0 ≤ l4.start ∧ l4.input = l.input) ∧ l4.start ≤ l4.pos ∧ l4.pos = l3.pos + i) := by
+            (fun l4 => (l4.len = n ∧ (l4.mp : Int) ≤ n ∧ 0 ≤ l4.tagStart ∧ l4.tagStart ≤ n ∧ (l4.bad = 0 ∧ l4.cnt ≤ 2 * l4.start ∧ l4.tot ≤ l4.start) ∧ l4.tagBad = 0) ∧ (0 ≤ l4.start ∧ l4.input = l.input) ∧ l4.start ≤ l4.pos ∧ l4.pos = l3.pos + i) := by
           split
           · em l4 hl4 hp4 hs4 hw4
             exact ⟨by lx, ⟨by lx, by inq⟩, by lx, by lx⟩
